@@ -192,17 +192,22 @@ def tags2preene_cases(ck, rng, V, label, d, base, ncases):
              "omega1": ("preT1", "eneT1"), "omega2": ("preT2", "eneT2")}
     terms, metas = [], []
     for k in range(ncases):
-        mode = rng.choice(["subset", "subset", "one-per-class", "dups", "dups+bogus", "bogus", "empty"])
+        mode = rng.choice(["subset", "subset", "one-per-class", "dups", "dups+bogus", "dups-same", "dups-same", "dups-all-same", "bogus", "empty"])
         ud = {}
         order = []
+        samegroups = []
         if mode == "one-per-class": chosen = list(flat)
         elif mode == "empty": chosen = []
         else: chosen = [c for c in flat if rng.random() < rng.choice([0.3, 0.6, 0.9])]
         for (ty, n) in chosen:
             members = list(d.tags[ty][n])
             nmem = 1
-            if mode.startswith("dups") and len(members) > 1 and rng.random() < 0.5: nmem = rng.randint(2, min(3, len(members)))
-            for t in rng.sample(members, nmem): order.append(t)
+            if mode.startswith("dups") and len(members) > 1 and rng.random() < (0.5 if mode != "dups-all-same" else 1.0):
+                nmem = rng.randint(2, min(3, len(members))) if mode != "dups-all-same" else len(members)
+            grp = rng.sample(members, nmem)
+            for t in grp: order.append(t)
+            # the typical user case: all symmetry-equivalent configurations filled from ONE calculation (identical data)
+            if nmem > 1 and (mode in ("dups-same", "dups-all-same") or (mode == "dups" and rng.random() < 0.3)): samegroups.append(grp)
         bogus = []
         if "bogus" in mode:
             for b in range(rng.randint(1, 3)):
@@ -212,6 +217,11 @@ def tags2preene_cases(ck, rng, V, label, d, base, ncases):
         order += bogus
         rng.shuffle(order)
         for t in order: ud[t] = (float(nr.uniform(0.5, 2.0)), float(nr.uniform(0.05, 1.0)))
+        for grp in samegroups:
+            for t in grp: ud[t] = ud[grp[0]]
+            ty0 = d.tagdicttype[grp[0]]
+            cnt = ck.extra.setdefault("identical_data_duplicates_by_type", {})
+            cnt[ty0] = cnt.get(ty0, 0) + 1
         try:
             thermo, missing, dups, bad = d.tags2preene(dict(ud), VERBOSE=True)
             plain = d.tags2preene(dict(ud))
@@ -222,9 +232,11 @@ def tags2preene_cases(ck, rng, V, label, d, base, ncases):
             V("tags2preene with and without VERBOSE differ", {**base, "usertags": ud}, key="c15-verbose-differs")
         # data ids: user entry k -> k+1 ; (1, 0) -> 0 ; LIMB value of omega1/2 class i -> 1000+i / 2000+i
         uid = {}
+        did = {}
         for kk, (t, v) in enumerate(ud.items()):
             ids.setdefault(t, None)
-            uid[t] = kk + 1
+            did.setdefault(v, len(did) + 1)          # identical data = identical data id
+            uid[t] = did[v]
         filled = {x: thermo[x] for x in ("preV", "eneV", "preS", "eneS", "preSV", "eneSV", "preT0", "eneT0")}
         limb = d.makeLIMBpreene(**filled)
         arrays = []
@@ -233,7 +245,7 @@ def tags2preene_cases(ck, rng, V, label, d, base, ncases):
             row = []
             for i in range(len(d.tags[ty])):
                 pair = (float(thermo[pn][i]), float(thermo[en][i]))
-                cand = [uid[t] for t, v in ud.items() if v == pair]
+                cand = sorted(set(uid[t] for t, v in ud.items() if v == pair))
                 # (the LIMB value of an omega2 class can coincide with a supplied omega0 pair: test LIMB first)
                 if ty in ("omega1", "omega2") and pair == (float(limb[pn][i]), float(limb[en][i])): row.append((1000 if ty == "omega1" else 2000) + i)
                 elif cand: row.append(cand[0] if len(cand) == 1 else 7777)
@@ -285,7 +297,8 @@ def run(ck):
     V = Once(ck)
     ck.rule = ("VacancyMediated calculators on named 2-D/3-D lattices (Nthermo 1-2; multi-site, multi-Wyckoff, polar) and random crystals, "
                "Interstitial calculators on the crystal pool; user dictionaries: random class subsets (30/60/90%), one random member per "
-               "class, 2-3 members of a class (duplicates), bogus tags (mutated real tags, foreign strings), empty, one-per-class; "
+               "class, 2-3 or all members of a class (duplicates) with different AND with identical (pre, ene) data, bogus tags (mutated "
+               "real tags, foreign strings), empty, one-per-class; "
                "distinct = distinct (calculator, dictionary); non-trivial = non-empty dictionary")
     ck.trusted += ["harness/c15.py tag parser (regular expressions on the +06.3f format) and id encoding of tags/data"]
     ck.theorems()
